@@ -747,6 +747,74 @@ func sameValue(a, b ssa.Value) bool {
 	return false
 }
 
+// sameExpr: structural equality of two side-effect-free expressions — the same value, equal constants, loads of the same
+// place (same root, same field/index path; intervening stores are NOT considered, callers use it only where the place is
+// not written in between), len() of the same slice, and the same operator applied to equal operands.
+func sameExpr(a, b ssa.Value) bool { return sameExprD(a, b, 0) }
+
+func sameExprD(a, b ssa.Value, d int) bool {
+	if sameValue(a, b) {
+		return true
+	}
+	if d > 6 || a == nil || b == nil {
+		return false
+	}
+	switch x := a.(type) {
+	case *ssa.UnOp:
+		y, ok := b.(*ssa.UnOp)
+		if !ok || x.Op != y.Op {
+			return false
+		}
+		if x.Op == token.MUL {
+			return sameAddrExpr(x.X, y.X, d+1)
+		}
+		return sameExprD(x.X, y.X, d+1)
+	case *ssa.BinOp:
+		y, ok := b.(*ssa.BinOp)
+		return ok && x.Op == y.Op && sameExprD(x.X, y.X, d+1) && sameExprD(x.Y, y.Y, d+1)
+	case *ssa.Convert:
+		y, ok := b.(*ssa.Convert)
+		return ok && types.Identical(x.Type(), y.Type()) && sameExprD(x.X, y.X, d+1)
+	case *ssa.Call:
+		y, ok := b.(*ssa.Call)
+		if !ok || calleeName(&x.Call) != "builtin.len" || calleeName(&y.Call) != "builtin.len" {
+			return false
+		}
+		return sameExprD(x.Call.Args[0], y.Call.Args[0], d+1)
+	case *ssa.Slice:
+		y, ok := b.(*ssa.Slice)
+		if !ok || !sameExprD(x.X, y.X, d+1) {
+			return false
+		}
+		eq := func(p, q ssa.Value) bool {
+			if p == nil || q == nil {
+				return p == nil && q == nil
+			}
+			return sameExprD(p, q, d+1)
+		}
+		return eq(x.Low, y.Low) && eq(x.High, y.High) && eq(x.Max, y.Max)
+	}
+	return false
+}
+
+func sameAddrExpr(a, b ssa.Value, d int) bool {
+	if a == b {
+		return true
+	}
+	if d > 6 {
+		return false
+	}
+	switch x := a.(type) {
+	case *ssa.FieldAddr:
+		y, ok := b.(*ssa.FieldAddr)
+		return ok && x.Field == y.Field && types.Identical(x.X.Type(), y.X.Type()) && sameExprD(x.X, y.X, d+1)
+	case *ssa.IndexAddr:
+		y, ok := b.(*ssa.IndexAddr)
+		return ok && sameExprD(x.X, y.X, d+1) && sameExprD(x.Index, y.Index, d+1)
+	}
+	return false
+}
+
 // errIsNilAt classifies an error-typed value at a program point: "nil", "nonnil", "maybe".
 func errIsNilAt(v ssa.Value, at ssa.Instruction) string {
 	return errState(v, at, map[ssa.Value]bool{})
